@@ -178,6 +178,29 @@ def BSpec (b : Nat) (Fs : List Nat) : Spec buddyIface (bdevsFrom b Fs) where
     intro p hp
     obtain ⟨r1, r2⟩ := inDev_range c1 hsz (hin p hp)
     exact ⟨fun c => n3 p c p hp rfl, devOf_bdevs hdv r1 r2⟩
+  multi_len := by
+    intro d m l n ps m' h ha
+    obtain ⟨dv, F, hdv, hsz, hc, ht, hn⟩ := h
+    have ham : Buddy.amOp m n = .ok (ps, m') := liftB_ok ha
+    by_cases h0 : n = 0
+    · subst h0
+      rw [(Buddy.amOp_zero_ok ham).1]
+      rfl
+    · unfold Buddy.amOp at ham
+      split at ham
+      · cases ham
+      · rw [Buddy.allocMulti_pos m h0] at ham
+        split at ham
+        · cases ham
+        · rename_i qs s' hq
+          split at ham
+          · injection ham with ham
+            injection ham with e1 e2
+            subst e1
+            obtain ⟨i, level, blk, rest, -, -, -, -, hpg, -⟩ :=
+              Buddy.allocMulti_ok hq (by rw [hc.f.hlen]; omega)
+            rw [hpg, Buddy.pagesFrom_length]
+          · cases ham
   add := by
     intro d m l p m' h hp ha
     obtain ⟨dv, F, hdv, hsz, hc, ht, hn⟩ := h
@@ -209,5 +232,8 @@ theorem ginv_binit (Fs : List Nat) : GInv (BSpec 4096 Fs) (binit Fs) (fun _ => [
   · intro e he; simp [binit] at he
   · intro e he; simp [binit] at he
   · intro e he; simp [binit] at he
+
+theorem tight_binit (Fs : List Nat) : Tight (bdevsFrom 4096 Fs) (binit Fs) (fun _ => []) [] :=
+  { own := fun _ _ h => (by cases h), tight := fun _ _ h => (by cases h) }
 
 end C10.Comp
